@@ -1,7 +1,7 @@
 // C13: base64encode / base64decode — exhaustive enumeration of byte strings against an independent RFC 4648 reference
 // (refs/C13_rfc4648.hpp) and the "specification decode" of the property statement.  See NOTES.md.
 //
-//   harness [--chunk N] [--deadline SECONDS] [--samples] (--job MODE FAMILY LO HI)...
+//   harness [--chunk N] [--deadline SECONDS] [--samples N] (--job MODE FAMILY LO HI)...
 //     MODE   enc : s -> e = xtl::base64encode(s) must equal ref encode(s); xtl::base64decode(e) must equal s
 //            dec : t -> xtl::base64decode(t) must equal spec_decode(t) (longest leading alphabet run, whole bytes only)
 //     FAMILY full:L        all 256^L strings of length L over all byte values
@@ -160,6 +160,7 @@ struct Shared
 {
     volatile long long cur;        // index of the case being executed
     volatile int phase;            // which library call is running (PH_*)
+    volatile int chunk_done;       // set by the child after the last case of its chunk (exit status alone proves nothing: ASan's fatal errors exit with exitcode=0)
     long long enc_cases, dec_cases, enc_nontrivial, dec_nontrivial;
     long long skipped, violating_cases, forks, max_len, decoded_bytes;
     long long dec_class[N_STOP][4];
@@ -172,8 +173,8 @@ struct Shared
 };
 static Shared* S = nullptr;
 static const int CRASH_LIMIT = 2;   // after this many killed children for one input class the class is no longer executed (and the run is capped)
-static bool g_samples = false;
-static inline bool want_sample() { return g_samples && S->job_samples < 1 && S->proc_samples < 3; }   // at most one per job, three per process
+static int g_samples = 0;
+static inline bool want_sample() { return S->job_samples < 1 && S->proc_samples < g_samples; }   // at most one per job, --samples N per process
 
 static void report(const std::string& sig, const std::string& msg, const std::vector<std::string>& replay)
 {
@@ -218,7 +219,8 @@ static void enc_case(const Family& f, unsigned long long idx, bytes& in)
     f.make(idx, in);
     const int r = int(in.size() % 3), ct = content_class(in);
     if (S->enc_crashes[r][ct] >= CRASH_LIMIT) { S->skipped++; return; }
-    const bytes expected = ref4648::encode(in);
+    static bytes expected;   // reused buffer (one heap block for the whole chunk instead of one per case)
+    ref4648::encode(in, expected);
     std::string e, d;
     bool threw = false;
     std::string what;
@@ -274,7 +276,8 @@ static void dec_case(const Family& f, unsigned long long idx, bytes& in)
     const std::size_t k = ref4648::leading_run(in);
     const int st = stop_class(in, k);
     if (S->dec_crashes[st] >= CRASH_LIMIT) { S->skipped++; return; }
-    const bytes expected = ref4648::spec_decode(in);
+    static bytes expected, canon;   // reused buffers
+    ref4648::spec_decode(in, expected);
     std::string d;
     bool threw = false;
     std::string what;
@@ -295,7 +298,8 @@ static void dec_case(const Family& f, unsigned long long idx, bytes& in)
     S->decoded_bytes += (long long)expected.size();
     if ((long long)in.size() > S->max_len) S->max_len = (long long)in.size();
     // non-trivial: the input is not the canonical RFC 4648 encoding of anything (those are what the round-trip family presents)
-    const bool nontrivial = ref4648::encode(expected) != in;
+    ref4648::encode(expected, canon);
+    const bool nontrivial = canon != in;
     if (nontrivial) S->dec_nontrivial++;
 
     if (!threw && !asan && same(d, expected) && !(nontrivial && want_sample())) return;   // the common case
@@ -312,7 +316,9 @@ static void dec_case(const Family& f, unsigned long long idx, bytes& in)
     if (!same(d, expected))
     {
         const char* kind = d.size() > expected.size() ? "output-too-long" : d.size() < expected.size() ? "output-too-short" : "wrong-bytes";
-        report("C13/base64decode/" + cls + "/" + kind,
+        // output-too-long = something behind the stop was decoded: keyed by WHAT stopped the run; otherwise keyed by the phase of the accumulator
+        const std::string where = d.size() > expected.size() ? std::string("stop=") + STOP_NAME[st] : "run%4=" + vf::str(k % 4);
+        report("C13/base64decode/" + where + "/" + kind,
                "base64decode(t) for t = " + show(in) + ": leading alphabet run has " + vf::str(k) + " characters (then: " + STOP_NAME[st] + "), so the result must be the " +
                    vf::str(expected.size()) + " whole bytes " + show(expected) + "; observed " + show(d),
                replay_args("dec", in));
@@ -374,6 +380,7 @@ static void run_range(bool enc, const Family& f, unsigned long long lo, unsigned
         int efd = open("/tmp", O_TMPFILE | O_RDWR, 0600);
         S->phase = PH_NONE;
         S->cur = -1;
+        S->chunk_done = 0;
         pid_t pid = fork();
         if (pid < 0) { std::perror("fork"); std::exit(2); }
         if (pid == 0)
@@ -388,15 +395,16 @@ static void run_range(bool enc, const Family& f, unsigned long long lo, unsigned
             }
             alarm(0);
             std::fflush(stdout);
+            S->chunk_done = 1;
             _exit(0);
         }
         S->forks++;
         int st = 0;
         while (waitpid(pid, &st, 0) < 0 && errno == EINTR) {}
-        if (WIFEXITED(st) && WEXITSTATUS(st) == 0) { if (efd >= 0) close(efd); return; }
+        if (WIFEXITED(st) && WEXITSTATUS(st) == 0 && S->chunk_done) { if (efd >= 0) close(efd); return; }
         const long long cur = S->cur;
         const int ph = S->phase;
-        if (!WIFSIGNALED(st) || ph == PH_NONE || cur < (long long)at || cur >= (long long)hi)
+        if (ph == PH_NONE || cur < (long long)at || cur >= (long long)hi)
         {
             // not inside a library call: this is a harness failure, never a verdict
             std::fprintf(stderr, "C13 harness: child ended abnormally outside a library call (status 0x%x, phase %d, index %lld): %s\n", st, ph, cur, first_diag(efd).c_str());
@@ -404,10 +412,11 @@ static void run_range(bool enc, const Family& f, unsigned long long lo, unsigned
         }
         bytes in;
         f.make((unsigned long long)cur, in);
-        const std::string how = signame(WTERMSIG(st));
+        // killed by a signal, or ended inside the call by a fatal sanitizer error / exit (ASan's Die() uses exitcode=0 here)
+        const std::string how = WIFSIGNALED(st) ? signame(WTERMSIG(st)) : "a premature exit(" + vf::str(WEXITSTATUS(st)) + ")";
         const std::string diag = first_diag(efd);
         if (efd >= 0) close(efd);
-        const std::string kind = how == "timeout" ? "timeout" : "crash-" + how;
+        const std::string kind = !WIFSIGNALED(st) ? "fatal-exit" : how == "timeout" ? "timeout" : "crash-" + how;
         if (enc)
         {
             const int r = int(in.size() % 3), ct = content_class(in);
@@ -465,7 +474,7 @@ int main(int argc, char** argv)
         std::string a = argv[i];
         if (a == "--chunk" && i + 1 < argc) chunk = std::strtoull(argv[++i], nullptr, 10);
         else if (a == "--deadline" && i + 1 < argc) deadline = std::atol(argv[++i]);
-        else if (a == "--samples") g_samples = true;
+        else if (a == "--samples" && i + 1 < argc) g_samples = std::atoi(argv[++i]);
         else if ((a == "--job" || a == "--refdump") && i + 4 < argc)
         {
             Job j;
